@@ -39,6 +39,8 @@ enum Op {
     // environment
     EnvVerified { x: usize, b: bool },
     EnvFlags { transfer: bool, create: bool },
+    /// the compliance contract's notification hooks fail from now on (true) / work again (false)
+    EnvHooksFail { b: bool },
     EnvRecovery { old: usize, new: Option<usize> },
     /// probe on a rebuilt copy: 600000 ledgers pass without a call; balances, freezes, pause flag
     /// and supply must read the same
@@ -57,6 +59,7 @@ struct St {
     verified: [bool; N],
     can_transfer: bool,
     can_create: bool,
+    hooks_fail: bool,
     recovery: [Option<usize>; N],
 }
 
@@ -115,6 +118,7 @@ impl Rwa {
             Op::Unpause => (t, "unpause", SVec::new(e)),
             Op::EnvVerified { x, b } => (i.ver.clone(), "set_verified", (u(*x), *b).into_val(e)),
             Op::EnvFlags { transfer, create } => (i.comp.clone(), "set_flags", (*transfer, *create).into_val(e)),
+            Op::EnvHooksFail { b } => (i.comp.clone(), "set_hooks_fail", (*b,).into_val(e)),
             Op::EnvRecovery { old, new } => (i.ver.clone(), "set_recovery", (u(*old), new.map(u)).into_val(e)),
             Op::IdleProbe => unreachable!(),
         }
@@ -201,6 +205,7 @@ impl World for Rwa {
             verified: [false; N],
             can_transfer: true,
             can_create: true,
+            hooks_fail: false,
             recovery: [None; N],
         };
         // base configuration through the real entry points (not checked here; the observation
@@ -341,6 +346,7 @@ impl World for Rwa {
         }
         v.push(Op::EnvFlags { transfer: !m.can_transfer, create: m.can_create });
         v.push(Op::EnvFlags { transfer: m.can_transfer, create: !m.can_create });
+        v.push(Op::EnvHooksFail { b: !m.hooks_fail });
         for old in 0..N {
             for new in [None, Some((old + 1) % N), Some((old + 2) % N)] {
                 if m.recovery[old] != new && (th || old != 2) {
@@ -365,7 +371,7 @@ impl World for Rwa {
             Op::UnfreezePartial { .. } => "unfreeze_partial",
             Op::Pause => "pause",
             Op::Unpause => "unpause",
-            Op::EnvVerified { .. } | Op::EnvFlags { .. } | Op::EnvRecovery { .. } => "env",
+            Op::EnvVerified { .. } | Op::EnvFlags { .. } | Op::EnvRecovery { .. } | Op::EnvHooksFail { .. } => "env",
             Op::IdleProbe => "idle-probe",
         }
         .to_string()
@@ -506,7 +512,15 @@ impl World for Rwa {
                 x.can_create = *create;
             }
             Op::EnvRecovery { old, new } => x.recovery[*old] = *new,
+            Op::EnvHooksFail { b } => x.hooks_fail = *b,
             Op::IdleProbe => unreachable!(),
+        }
+        // a movement the compliance contract could not be told about must not have happened
+        if pre.hooks_fail && !want_log.is_empty() {
+            return Err(Violation::new(
+                "compliance-notification",
+                format!("{:?} succeeded although the compliance contract's notification hook fails: the movement happened without the compliance contract being notified", op),
+            ));
         }
         let mut post = self.observe(i, &x)?;
         cx.stats.count("getter-comparisons", (2 + 3 * N + N * N) as u64);
